@@ -2,6 +2,7 @@ package c14
 
 import (
 	"fmt"
+	"strings"
 
 	"github.com/nspcc-dev/neo-go/pkg/smartcontract/manifest"
 )
@@ -632,6 +633,147 @@ func Main(a int) int {
 }
 `, Fn: "Main", Args: iarg(9), Res: "int", GoWant: "i:9"},
 	)
+}
+
+// The rest of the audit round (items 4-8 and 13 of the notes).
+func init() {
+	iarg := func(v int64) []Arg { return []Arg{{T: "int", I: v}} }
+	findings = append(findings,
+		finding{Key: kPromotedMethod, What: "a call of a method promoted from an embedded struct (b.M(1), M declared on the embedded A) is looked up as B.M, not found, and compiled as a type conversion of its first argument: the call returns its argument; without arguments the compiler itself panics (index out of range)",
+			Src: `package foo
+
+type A struct {
+	v int
+}
+
+func (a A) M(x int) int {
+	return a.v + x
+}
+
+type B struct {
+	A
+}
+
+func Main(a int) int {
+	b := B{A{7}}
+	return b.M(a)
+}
+`, Fn: "Main", Args: iarg(1), Res: "int", GoWant: "i:8"},
+		finding{Key: kNamedFuncValue, What: "a declared function used as a value (f := helper; f(3), (helper)(3)) compiles to a load of a fresh, unset local and faults at CALLA on Null; the usage analysis looks at calls only and drops helper when nothing calls it directly",
+			Src: `package foo
+
+func helper(a int) int {
+	return a + 1
+}
+
+func Main(a int) int {
+	f := helper
+	return f(a)
+}
+`, Fn: "Main", Args: iarg(3), Res: "int", GoWant: "i:4"},
+		finding{Key: kTypeSwitch, What: "a type switch (switch v.(type)) makes the compiler itself panic with a nil pointer dereference (no case for TypeSwitchStmt in Visit); repaired by refusing the construct by name, which the harness accepts as a documented rejection (stack items do not keep Go types)",
+			Src: `package foo
+
+func Main(a int) int {
+	var v any = a
+	switch v.(type) {
+	case int:
+		return 1
+	}
+	return 2
+}
+`, Fn: "Main", Args: iarg(3), Res: "int", GoWant: "i:1"},
+		finding{Key: kAndNot, What: "x &^ y and x &^= y are refused (compiler could not convert token) although every other bitwise operator compiles",
+			Src: `package foo
+
+func Main(a int) int {
+	x := 255
+	x &^= a
+	return x &^ 1
+}
+`, Fn: "Main", Args: iarg(240), Res: "int", GoWant: "i:14"},
+		finding{Key: kShiftCount, What: "a >> n with n above 256 faults in the VM (SHR: operand must be between 0 and 256); Go defines the result for every non-negative count (0, or -1 for a negative operand)",
+			Src: `package foo
+
+func Main(a int) int {
+	x := -5
+	return x>>a + 7
+}
+`, Fn: "Main", Args: iarg(300), Res: "int", GoWant: "i:6"},
+		finding{Key: kRangeArrayCopy, What: "range over an array value with a value variable iterates the array itself, not a copy made before the first iteration: an element written by the loop body before it is reached is produced with the new value",
+			Src: `package foo
+
+func Main(a int) int {
+	arr := [3]int{1, 2, 3}
+	sum := 0
+	for _, v := range arr {
+		arr[2] = a
+		sum += v
+	}
+	return sum
+}
+`, Fn: "Main", Args: iarg(10), Res: "int", GoWant: "i:6"},
+		finding{Key: kAppendAlias, What: "b := append(a, x) appends to the array item of a in place (APPEND) and b is the same item: len(a) grows and writes through b reach a even when Go allocates a new array (capacity exhausted); s = append(s, x) through one variable is unaffected. Slices are one VM Array without a length / capacity of their own: a repair needs a slice representation (array, offset, length), a redesign",
+			Src: `package foo
+
+func Main(a int) int {
+	s := []int{1, 2, 3}
+	b := append(s, a)
+	b[0] = 9
+	return len(s)*100 + len(b)*10 + s[0]
+}
+`, Fn: "Main", Args: iarg(4), Res: "int", GoWant: "i:341"},
+		finding{Key: kSubsliceCopy, What: "b := a[1:3] of a byte slice is a copy (SUBSTR + CONVERT to Buffer): b[0] = 9 does not write through to a[1], and a later write to a is not seen through b; Go sub-slices share the array. Same root as append-extends-operand: slices have no offset / length of their own",
+			Src: `package foo
+
+func Main(a int) int {
+	s := []byte{1, 2, 3, 4}
+	b := s[1:3]
+	b[0] = byte(a)
+	return int(s[1])
+}
+`, Fn: "Main", Args: iarg(9), Res: "int", GoWant: "i:9"},
+		finding{Key: kStringRunes, What: "range over a string iterates its bytes: a string with multi-byte characters gives one iteration per byte (and byte values as the range value) where Go gives one per character (rune) with the offset of its first byte. Strings are plain byte strings in the VM and there is no UTF-8 decoder in the generated code ([]rune(s) is documented as unsupported, range is not): a repair has to emit a decoder loop, a feature rather than a patch",
+			Src: `package foo
+
+func Main(a int) int {
+	n := 0
+	for i := range "aé" {
+		n += 10 + i
+	}
+	return n + a
+}
+`, Fn: "Main", Args: iarg(0), Res: "int", GoWant: "i:21"},
+		finding{Key: kMethodValue, What: "a method value (f := a.M) or a method expression (T.M) outside of a call is reported as a missing field (field M not found in type T); repaired by naming the construct in the error, which the harness accepts as a documented rejection (a method value is a closure over its receiver)",
+			Src: `package foo
+
+type T struct {
+	x int
+}
+
+func (t T) M(a int) int {
+	return t.x + a
+}
+
+func Main(a int) int {
+	t := T{x: 5}
+	f := t.M
+	return f(a)
+}
+`, Fn: "Main", Args: iarg(3), Res: "int", GoWant: "i:8"},
+	)
+}
+
+func init() {
+	// (more than 64 KiB of code in front of Main: 262 assignments of a 250 byte literal)
+	pad := ""
+	for i := 0; i < 262; i++ {
+		pad += "\ts = \"" + strings.Repeat("abcdefghij", 25) + "\"\n"
+	}
+	findings = append(findings, finding{Key: kBigOffsets,
+		What: "the range of a method is kept in 16 bits: a method that starts above 65535 gets its offset modulo 65536 in debug info and manifest; most such builds are refused by the final script check (some methods point to wrong offsets), for some paddings the contract is built and a method invoked through the manifest runs other code",
+		Src: "package foo\n\nfunc Big(a int) int {\n\ts := \"\"\n" + pad + "\treturn len(s) + a\n}\n\nfunc Main(a int) int {\n\treturn a + 42\n}\n",
+		Fn: "Main", Args: []Arg{{T: "int", I: 1}}, Res: "int", GoWant: "i:43"})
 }
 
 // runFinding executes the neo-go side of a reproduction and renders the outcome in the notation of the check.
